@@ -4,7 +4,11 @@
   line:  smap <vt> <hist> <probes>  => <impl result>
     vt     ∈ int | st | s2s | s2z      (StrMap[int], StrMap[struct], NewStr2Str(), zero-value Str2Str)
     hist   = "-" (never loaded) or loads joined by ";", each  <m|s>:<keys>:<vals>
-             m = LoadFromMap, s = LoadFromSlice; keys = hex tokens joined by "," ("_" = none, "-" = the
+             m = LoadFromMap, s = LoadFromSlice on the instance; M / S (first load only, not s2z) = the
+             instance is created by NewFromMap / NewFromSlice (NewStr2StrFromMap / …FromSlice): same
+             transition as a load on New(), except that an error return is a panic carrying the error
+             (`PANIC:other:kv_len_not_match`) and the caller has no object — the line then continues
+             on a fresh New(); keys = hex tokens joined by "," ("_" = none, "-" = the
              empty key, "z<n>" = n zero bytes); vals = value tokens joined by "," (int: decimal, st: a.b,
              s2s/s2z: hex)
              A key z<n> with n > 2^20 is not materialised (F13 witness: n = 2^32): such a load only
@@ -14,7 +18,8 @@
   Every line is a whole history on ONE fresh instance followed by the observations, so each line
   replays on its own; the driver folds the model state (`StrMap`/`Str2Str`) through the history.
 
-  result:  L=<status,…> N=<len> I=<sorted key=val,…> X=<Item(-1)>,<Item(len)> G=<get,…>
+  result:  L=<status,…> N=<len> I=<sorted key=val,…> X=<Item(-1)>,<Item(len)> T=<String()> G=<get,…>
+    T = ok | PANIC:<class> | na (Str2Str has no String); compared model-vs-impl only (no verdict)
     status = ok | err:kvlen | err:keytoolarge | PANIC:<class>;  get = +<val> | ~ | PANIC:<class>
 
   Model column: the real hash (hash/maphash with a per-instance random seed) cannot be controlled,
@@ -44,6 +49,12 @@ def standIn (mode : Nat) : Bytes → Nat :=
   | _ => fun b => hFnv b / 65536
 
 /-! ## parsing -/
+
+/-- lib.PanicClass: the runtime classes, otherwise `other:` + the panic text with `_` for spaces -/
+def panicStr (s : String) : String :=
+  if s == "index" || s == "slice" || s == "divzero" || s == "nil" then "PANIC:" ++ s
+  else "PANIC:other:" ++ s.replace " " "_"
+
 
 def parseList (t : String) : List String := if t == "_" then [] else t.splitOn ","
 
@@ -84,9 +95,13 @@ def parseLoad (t : String) : Option LoadReq :=
 
 /-- model status of a load with an unmaterialised key: only the two length checks are reachable -/
 def hugeStatus (ld : LoadReq) : String :=
-  if ld.klens.length ≠ ld.vv.length then "err:kvlen"
-  else if ld.klens.any (fun n => n > SMap.maxU32) then "err:keytoolarge"
+  let ctor := ld.mode == "M" || ld.mode == "S"
+  if ld.klens.length ≠ ld.vv.length then (if ctor then panicStr LErr.kvLen.msg else "err:kvlen")
+  else if ld.klens.any (fun n => n > SMap.maxU32) then
+    (if ctor then panicStr LErr.keyTooLarge.msg else "err:keytoolarge")
   else "bad-op"
+
+def LoadReq.ctor (ld : LoadReq) : Bool := ld.mode == "M" || ld.mode == "S"
 
 def parseHist (t : String) : Option (List LoadReq) :=
   if t == "-" then some [] else
@@ -101,14 +116,21 @@ def statusStr : Out LErr Unit → String
   | .ok _ => "ok"
   | .err .kvLen => "err:kvlen"
   | .err .keyTooLarge => "err:keytoolarge"
-  | .panic s => "PANIC:" ++ s
+  | .panic s => panicStr s
   | .oob => "OOB"
+
+/-- status of a constructor call and the object the line continues with -/
+def ctorStr {σ : Type} (fresh : σ) : Out LErr σ → String × σ
+  | .ok m => ("ok", m)
+  | .err _ => ("err", fresh)
+  | .panic s => (panicStr s, fresh)
+  | .oob => ("OOB", fresh)
 
 def getStr {V : Type} (f : V → String) : Out LErr (Option V) → String
   | .ok (some v) => "+" ++ f v
   | .ok none => "~"
   | .err _ => "err"
-  | .panic s => "PANIC:" ++ s
+  | .panic s => panicStr s
   | .oob => "OOB"
 
 def joinC (l : List String) : String := if l.isEmpty then "_" else ",".intercalate l
@@ -118,7 +140,7 @@ def sortTok (l : List String) : List String := l.mergeSort (fun a b => compare a
 def itemStr : Out LErr (Bytes × String) → String
   | .ok (k, v) => toHex k ++ "=" ++ v
   | .err _ => "err"
-  | .panic s => "PANIC:" ++ s
+  | .panic s => panicStr s
   | .oob => "OOB"
 
 /-! ## model column -/
@@ -131,7 +153,11 @@ def pickMode (hist : List LoadReq) : Nat :=
 def modelGen (hist : List LoadReq) (probes : List Bytes) : String :=
   let h := standIn (pickMode hist)
   let (sts, m) := hist.foldl (fun (acc : List String × StrMap String) ld =>
-      if ld.huge then (hugeStatus ld :: acc.1, acc.2) else
+      if ld.huge then (hugeStatus ld :: acc.1, acc.2)
+      else if ld.ctor then
+        let r := ctorStr StrMap.init (newFromSlice h msort ld.kk ld.vv)
+        (r.1 :: acc.1, r.2)
+      else
       let r := loadFromSlice h msort acc.2 ld.kk ld.vv
       (statusStr r.1 :: acc.1, r.2)) ([], StrMap.init)
   let its := (itemsAll m).map itemStr
@@ -141,7 +167,11 @@ def modelGen (hist : List LoadReq) (probes : List Bytes) : String :=
     | none => joinC (sortTok its)
   let x := itemStr (item m (-1)) ++ "," ++ itemStr (item m (len m))
   let g := probes.map (fun p => getStr id (get h m p))
-  s!"L={joinC sts.reverse} N={len m} I={iStr} X={x} G={joinC g}"
+  let t := match stringCall m with
+    | .ok _ => "ok"
+    | .panic s => panicStr s
+    | _ => "err"
+  s!"L={joinC sts.reverse} N={len m} I={iStr} X={x} T={t} G={joinC g}"
 
 def modelS2S (zero : Bool) (hist : List LoadReq) (probes : List Bytes) : String :=
   let h := standIn (pickMode hist)
@@ -150,14 +180,18 @@ def modelS2S (zero : Bool) (hist : List LoadReq) (probes : List Bytes) : String 
       match parseHexList ld.vv with
       | none => ("bad-op" :: acc.1, acc.2)
       | some vv =>
+        if ld.ctor then
+          let r := ctorStr Str2Str.init (newStr2StrFromSlice h msort ld.kk vv)
+          (r.1 :: acc.1, r.2)
+        else
         let r := s2sLoad h msort acc.2 ld.kk vv
         (statusStr r.1 :: acc.1, r.2)) ([], if zero then Str2Str.zero else Str2Str.init)
   let n := match s2sLen m with
     | .ok n => toString n
-    | .panic s => "PANIC:" ++ s
+    | .panic s => panicStr s
     | _ => "err"
   let g := probes.map (fun p => getStr toHex (s2sGet h m p))
-  s!"L={joinC sts.reverse} N={n} I=na X=na G={joinC g}"
+  s!"L={joinC sts.reverse} N={n} I=na X=na T=na G={joinC g}"
 
 /-! ## spec verdict on the implementation's result -/
 
@@ -177,6 +211,9 @@ def expectAfter (hist : List LoadReq) (sts : List String) :
     | [], _, m => .ok m
     | _ :: _, [], _ => .error "protocol"
     | ld :: rest, st :: srest, m =>
+      -- a constructor reports a loader error by panicking with it (documented: "len(kk) must equal
+      -- to len(vv)"); that is its way of failing, any other panic is a violation
+      let st := if ld.ctor && st.startsWith "PANIC:other:" then "err:ctor" else st
       if st.startsWith "PANIC" || st == "OOB" then .error s!"C07:load-panic:{j}"
       else if ld.huge then
         -- a key beyond 4 GiB: a failed load changes nothing; an accepted one is not checked here
@@ -225,7 +262,12 @@ def handleSmap (args : List String) (impl : String) : String × String :=
         pure (b :: r)) (some [])) with
     | some hs, some ps =>
       -- a LoadFromMap request must be expressible as a Go map
-      if hs.any (fun ld => ld.mode == "m" && (ld.kk.length != ld.vv.length || !distinctToks ld.kkTok)) then
+      if hs.any (fun ld => (ld.mode == "m" || ld.mode == "M") &&
+            (ld.kk.length != ld.vv.length || !distinctToks ld.kkTok)) then
+        ("bad-op", "na")
+      -- constructors create the instance: first load only, and not on the zero-value Str2Str
+      else if (hs.drop 1).any (·.ctor) || (vt == "s2z" && hs.any (·.ctor)) ||
+          hs.any (fun ld => !(["m", "s", "M", "S"].contains ld.mode)) then
         ("bad-op", "na")
       else
       let model := match vt with
